@@ -1,7 +1,9 @@
 (* sdf/mesh2.go (lineInfo, minDistance2, winding, qtNode, qtBuild, searchOrder, minBoxDist2,
    minDist2, winding, Mesh2D, MeshSDF2.Evaluate, MeshSDF2Slow.Evaluate, VertexToLine) and
-   sdf/box2.go (Square, quad0..quad3, Snap, tAppend, lineIntersect, lineFilter), sdf/utils.go
-   (EqualFloat64, SnapFloat64).  The model follows the Go code statement by statement; then the
+   sdf/box2.go (Square, quad0..quad3, lineClip, lineIntersect, lineFilter; Snap, and the tAppend /
+   tolerance version of lineIntersect that the repaired code replaced, kept for the refutation
+   theorems), sdf/utils.go (EqualFloat64, SnapFloat64).  The model follows the Go code statement by
+   statement; then the
    sqrt-free specification (crossing number with cross products, squared segment distance) and the
    decidable certificate `well_clipped_check` for a clipped quadtree. *)
 From Coq Require Import ZArith List Bool.
@@ -99,7 +101,10 @@ Section Poly.
   Definition clip_pt_pinned (l : Seg) (t : T) : V2 :=
     v2add (fst l) (v2muls (v2sub (snd l) (fst l)) t).
 
-  Definition line_intersect (a : Box2) (l : Seg) : option Seg :=
+  (* Box2.lineIntersect BEFORE "fix: Box2.lineIntersect clips by coordinates": candidate parameters
+     merged within 1e-9, every candidate point (the end points of the line included) snapped onto a
+     box edge within 1e-9, but a line with both end points in the box returned as it is *)
+  Definition line_intersect_snap (a : Box2) (l : Seg) : option Seg :=
     let u := fst l in
     let v := v2sub (snd l) (fst l) in
     if (vy v =? o0 O) && (vy u =? vy (b2max a)) then None
@@ -116,8 +121,55 @@ Section Poly.
       | _ => None
       end.
 
-  Definition line_filter (a : Box2) (ls : list Seg) : list Seg :=
-    flat_map (fun l => match line_intersect a l with Some x => [x] | None => [] end) ls.
+  Definition line_filter_snap (a : Box2) (ls : list Seg) : list Seg :=
+    flat_map (fun l => match line_intersect_snap a l with Some x => [x] | None => [] end) ls.
+
+  (* ------------------------------------------------------------ lineClip, lineIntersect *)
+  Section Clip.
+    (* math.Nextafter.  At the float instance: the neighbouring float64 (C04Corr.fnextafter); at the
+       real and rational instances the identity on its first argument - the reals have no gaps, the
+       interpolated point lies strictly inside the range it is clamped to. *)
+    Context (nextafter : T -> T -> T).
+
+    Definition line_clip (l : Seg) (mn mx : T) : option Seg :=
+      let x0 := vx (fst l) in
+      let x1 := vx (snd l) in
+      if x0 =? x1 then
+        (if (x0 <? mn) || (x0 >=? mx) then None else Some l)
+      else if (omax O x0 x1 <=? mn) || (omin O x0 x1 >=? mx) then None
+      else
+        let ymin := omin O (vy (fst l)) (vy (snd l)) in
+        let ymax := omax O (vy (fst l)) (vy (snd l)) in
+        let cut := fun (p : V2) =>
+          let x := omin O (omax O (vx p) mn) mx in
+          if negb (x =? vx p) then
+            let y := vy (fst l) + (vy (snd l) - vy (fst l)) * ((x - x0) / (x1 - x0)) in
+            mkV2 x (omin O (omax O y ymin) (nextafter ymax ymin))
+          else p in
+        Some (cut (fst l), cut (snd l)).
+
+    Definition swap_xy (l : Seg) : Seg :=
+      (mkV2 (vy (fst l)) (vx (fst l)), mkV2 (vy (snd l)) (vx (snd l))).
+
+    Definition line_intersect (a : Box2) (l : Seg) : option Seg :=
+      let u := fst l in
+      let v := v2sub (snd l) (fst l) in
+      if (vy v =? o0 O) && (vy u =? vy (b2max a)) then None
+      else if (vx v =? o0 O) && (vx u =? vx (b2max a)) then None
+      else if box2_contains a (fst l) && box2_contains a (snd l) then Some l
+      else
+        match line_clip l (vx (b2min a)) (vx (b2max a)) with
+        | None => None
+        | Some x =>
+            match line_clip (swap_xy x) (vy (b2min a)) (vy (b2max a)) with
+            | None => None
+            | Some y => Some (swap_xy y)
+            end
+        end.
+
+    Definition line_filter (a : Box2) (ls : list Seg) : list Seg :=
+      flat_map (fun l => match line_intersect a l with Some x => [x] | None => [] end) ls.
+  End Clip.
 
   (* ------------------------------------------------------------ quadtree *)
   Inductive qt (A : Type) : Type :=
@@ -142,8 +194,9 @@ Section Poly.
     | QNode _ _ _ c0 c1 c2 c3 => pieces c0 ++ pieces c1 ++ pieces c2 ++ pieces c3
     end.
 
-  (* qtBuild; fuel = qtMaxLevel - level.  (convertLines is applied afterwards by qt_map.) *)
-  Fixpoint qt_build (fuel : nat) (box : Box2) (ls : list Seg) : qt Seg :=
+  (* qtBuild; fuel = qtMaxLevel - level.  (convertLines is applied afterwards by qt_map.)
+     `filter` = Box2.lineFilter *)
+  Fixpoint qt_build_with (filter : Box2 -> list Seg -> list Seg) (fuel : nat) (box : Box2) (ls : list Seg) : qt Seg :=
     match ls with
     | [] => QNil
     | _ =>
@@ -154,12 +207,14 @@ Section Poly.
         | 0%nat, _ => QLeaf box c hs ls
         | S f, _ =>
             QNode box c hs
-              (qt_build f (quad0 box) (line_filter (quad0 box) ls))
-              (qt_build f (quad1 box) (line_filter (quad1 box) ls))
-              (qt_build f (quad2 box) (line_filter (quad2 box) ls))
-              (qt_build f (quad3 box) (line_filter (quad3 box) ls))
+              (qt_build_with filter f (quad0 box) (filter (quad0 box) ls))
+              (qt_build_with filter f (quad1 box) (filter (quad1 box) ls))
+              (qt_build_with filter f (quad2 box) (filter (quad2 box) ls))
+              (qt_build_with filter f (quad3 box) (filter (quad3 box) ls))
         end
     end.
+  Definition qt_build (nextafter : T -> T -> T) := qt_build_with (line_filter nextafter).
+  Definition qt_build_snap := qt_build_with line_filter_snap.
 
   Definition ord (a b c d : nat) : nat * nat * nat * nat := (a, b, c, d).
   Definition search_order (c p : V2) : nat * nat * nat * nat :=
@@ -248,7 +303,10 @@ Section Poly.
     end.
   Definition qt_root_box (ls : list Seg) : Box2 :=
     box2_scale_about_center (box2_square (mesh_bb ls)) (cst 101 100).
-  Definition mesh2d (maxlevel : nat) (ls : list Seg) : qt Seg := qt_build maxlevel (qt_root_box ls) ls.
+  Definition mesh2d (nextafter : T -> T -> T) (maxlevel : nat) (ls : list Seg) : qt Seg :=
+    qt_build nextafter maxlevel (qt_root_box ls) ls.
+  (* Mesh2D before the repair of lineIntersect *)
+  Definition mesh2d_snap (maxlevel : nat) (ls : list Seg) : qt Seg := qt_build_snap maxlevel (qt_root_box ls) ls.
 
   Definition v2equals (a b : V2) (tol : T) : bool :=
     (oabs O (vx a - vx b) <=? tol) && (oabs O (vy a - vy b) <=? tol).
